@@ -1,14 +1,14 @@
 (* headers domain: run function (line protocol) over the header models.
    case kinds (first token):
-     10 transport unmarshal   : 10 putl(s) observed...   -> observed if it is a possible outcome, else the
-                                                            identity-order outcome (so that a diff shows it)
+     10 transport unmarshal   : 10 putl(s) observed...   -> outcome (the observed outcome in the case line is ignored
+                                                            since the repaired parsers are order independent)
      11 transport marshal     : 11 enc_transport          -> putl(bytes)
      12 transports unmarshal  : 12 putl(s) observed...
      13 transports marshal    : 13 enc_many enc_transport
      20 / 21 session, 30 / 31 rtp-info, 40 / 41 range (40 carries the observed outcome like 10),
      50 / 51 www-authenticate, 60 / 61 authorization, 70 / 71 keymgmt
      80 d        -> putl (FormatFloat(Duration(d).Seconds(), 'f', -1, 64))           (d >= 0)
-     81 putl(s)  -> [0] | 1 :: putz (int64(ParseFloat(s) * 1e9))
+     81 putl(s)  -> [0] | 1 :: putz (int64(math.Round(ParseFloat(s) * 1e9)))
    outcome encoding: [0] = error, 1 :: enc value = ok, [77] = panic *)
 From GVL Require Import NList Wire.
 From GV Require Import Res Str KeyVal HdrTransport HdrSession HdrAuth Float HdrRange Mikey HdrKeyMgmt.
@@ -17,47 +17,6 @@ Open Scope N_scope.
 Definition enc_res {A} (f : A -> list N) (r : res A) : list N :=
   match r with Ok v => 1 :: f v | Err => [0] | Panic => [77] end.
 
-Definition dedup_orders_outcomes {A} (f : A -> list N) (un : order_t -> res A) (m : kvs) : list (list N) :=
-  map (fun o => enc_res f (un o)) (cand_orders m).
-
-(* possible outcomes of a map-order dependent unmarshal, as encodings *)
-Definition transport_outcomes (s : list N) : list (list N) :=
-  match kv_parse s SEMI with
-  | None => [[0]]
-  | Some m => dedup_orders_outcomes enc_transport (fun o => transport_unmarshal_with o s) m
-  end.
-Definition range_outcomes (s : list N) : list (list N) :=
-  match kv_parse s SEMI with
-  | None => [[0]]
-  | Some m => dedup_orders_outcomes enc_range (fun o => range_unmarshal_with o s) m
-  end.
-
-Definition member (x : list N) (l : list (list N)) : bool := existsb (list_eqb x) l.
-
-Definition pick (obs : list N) (outs : list (list N)) (dflt : list N) : list N :=
-  if member obs outs then obs else dflt.
-
-(* transports: per-part candidate encodings (without the leading ok tag) *)
-Fixpoint match_parts (sets : list (list (list N))) (obs : list N) : bool :=
-  match sets with
-  | [] => match obs with [] => true | _ => false end
-  | set :: rest => existsb (fun c => starts_with c obs && match_parts rest (ndrop (nlen c) obs)) set
-  end.
-Definition strip_ok (e : list N) : list N := match e with 1 :: t => t | _ => e end.
-
-Definition transports_check (s obs : list N) : list N :=
-  let dflt := enc_res (enc_many enc_transport) (transports_unmarshal_with id_order s) in
-  match dflt with
-  | 1 :: _ =>
-    let parts := map trim_left_sp (split_on COMMA s) in
-    let sets := map (fun p => map strip_ok (transport_outcomes p)) parts in
-    match obs with
-    | 1 :: n :: rest => if (n =? nlen parts) && match_parts sets rest then obs else dflt
-    | _ => dflt
-    end
-  | _ => dflt
-  end.
-
 Definition with_str (t : list N) (f : list N -> list N -> list N) : list N :=
   match getl t with Some (s, rest) => f s rest | None => bad_case end.
 Definition with_val {A} (dec : list N -> option (A * list N)) (t : list N) (f : A -> list N) : list N :=
@@ -65,17 +24,15 @@ Definition with_val {A} (dec : list N -> option (A * list N)) (t : list N) (f : 
 
 Definition run (c : list N) : list N :=
   match c with
-  | 10 :: t => with_str t (fun s obs =>
-      pick obs (transport_outcomes s) (enc_res enc_transport (transport_unmarshal_with id_order s)))
+  | 10 :: t => with_str t (fun s _ => enc_res enc_transport (transport_unmarshal_with id_order s))
   | 11 :: t => with_val dec_transport t (fun v => putl (transport_marshal v))
-  | 12 :: t => with_str t transports_check
+  | 12 :: t => with_str t (fun s _ => enc_res (enc_many enc_transport) (transports_unmarshal_with id_order s))
   | 13 :: t => with_val (dec_many dec_transport) t (fun v => putl (transports_marshal v))
   | 20 :: t => with_str t (fun s _ => enc_res enc_session (session_unmarshal_with id_order s))
   | 21 :: t => with_val dec_session t (fun v => putl (session_marshal v))
   | 30 :: t => with_str t (fun s _ => enc_res (enc_many enc_entry) (rtpinfo_unmarshal_with id_order s))
   | 31 :: t => with_val (dec_many dec_entry) t (fun v => putl (rtpinfo_marshal v))
-  | 40 :: t => with_str t (fun s obs =>
-      pick obs (range_outcomes s) (enc_res enc_range (range_unmarshal_with id_order s)))
+  | 40 :: t => with_str t (fun s _ => enc_res enc_range (range_unmarshal_with id_order s))
   | 41 :: t => with_val dec_range t (fun v => putl (range_marshal v))
   | 50 :: t => with_str t (fun s _ => enc_res enc_authenticate (authenticate_unmarshal_with id_order s))
   | 51 :: t => with_val dec_authenticate t (fun v => putl (authenticate_marshal v))
@@ -87,7 +44,7 @@ Definition run (c : list N) : list N :=
   | 81 :: t => with_str t (fun s _ =>
       match parse_float s with
       | None => [0]
-      | Some x => 1 :: putz (to_int64 (dmul_int x E9))
+      | Some x => 1 :: putz (to_int64_round (dmul_int x E9))
       end)
   | _ => bad_case
   end.
